@@ -208,6 +208,11 @@ class Interp:
             if mut:
                 return heap.read(k, ref)
             return uf(k, Ref, sort)(ref)
+        if isinstance(ty, tuple) and ty[0] == "opt" and isinstance(ty[1], tuple) and ty[1][0] == "list":
+            if mut:
+                raise OutOfSubset("mutable optional list field")
+            ety = ty[1][1]
+            return OptV(uf(key + "?", Ref, B)(ref), SeqV(uf(key + ".len", Ref, I)(ref), uf(key + ".at", Ref, z3.ArraySort(I, sort_of(ety)))(ref), ety))
         if isinstance(ty, tuple) and ty[0] == "opt":
             inner = ty[1]
             if inner == "slotty":
@@ -304,6 +309,9 @@ class Interp:
         raise OutOfSubset(f"cannot coerce {v!r} to {ty}")
 
     def as_seq(self, v, st, ety=None):
+        if isinstance(v, OptV):
+            self.oblige(st, "safe:not-none@seq", z3.Not(v.none), "safety")
+            v = v.val
         if isinstance(v, SeqV):
             return v
         if isinstance(v, ListLoc):
